@@ -12,6 +12,7 @@ TYPES = [
     'list_str',
     'list_mixed',
     'list_numstr',
+    'list_date',
     'np_int',
     'np_str',
     'pd_index_int',
@@ -60,6 +61,10 @@ def make_span(spec):
     if ty == 'list_numstr':
         # numbers and strings only (nothing that would stop NumPy turning the whole list into strings)
         return [_numstr(o + i) for i in range(n)]
+    if ty == 'list_date':
+        import datetime
+
+        return [datetime.date(2000, 1, 1) + datetime.timedelta(days=o + i) for i in range(n)]
     if ty == 'np_int':
         return np.arange(o, o + n)
     if ty == 'np_str':
@@ -87,8 +92,22 @@ def elements(span):
 def label_forms(spec, span, pos, form=0):
     """A label addressing exactly position `pos`. form 0: the element; form 1: exact string form (time indexes only)."""
     el = span[pos]
-    if form == 1 and spec['type'] in ('pd_period_y', 'pd_period_q', 'pd_datetime'):
+    if form == 1 and spec['type'] == 'pd_datetime':
+        # other spellings of the same instant: they compare equal to the element, so they are the same label
+        k = pos % 4
+        if k == 1:
+            return el.to_datetime64()
+        if k == 2:
+            return el.to_datetime64().astype('datetime64[D]') if el == el.normalize() else el.to_datetime64()
+        if k == 3:
+            return el.to_pydatetime()
         return str(el)
+    if form == 1 and spec['type'] in ('pd_period_y', 'pd_period_q'):
+        return str(el)
+    if form == 1 and spec['type'] in ('range', 'range_step', 'list_int', 'pd_index_int'):
+        return np.int64(el)  # a NumPy scalar that equals the label (as positions computed with NumPy are)
+    if form == 1 and spec['type'] in ('list_str', 'pd_index_str'):
+        return np.str_(el)
     if isinstance(el, np.generic):
         # a NumPy scalar read back from an array span; the plain Python value is the same label
         return el.item() if form == 1 else el
@@ -115,6 +134,10 @@ def absent_label(spec, variant=0, span=None):
 
             # an absent timestamp inside a present day: must not be rounded onto that day's period
             return first + (first - first) + __import__('pandas').Timedelta(hours=12) if variant == 1 else first.to_pydatetime() + datetime.timedelta(seconds=1)
+        if ty == 'list_date':
+            import datetime
+
+            return span[-1] + datetime.timedelta(days=1) if variant == 1 else str(first)
         if ty == 'list_mixed':
             return 'az' if variant == 1 else 7.5
         if ty == 'list_numstr':
@@ -134,6 +157,10 @@ def absent_label(spec, variant=0, span=None):
         return spec.get('origin', 0) + spec['n'] + 5
     if ty in ('list_str', 'np_str', 'pd_index_str', 'list_mixed', 'list_numstr'):
         return 'nope'
+    if ty == 'list_date':
+        import datetime
+
+        return datetime.date(1971, 3, 4)
     if ty in ('pd_period_y', 'pd_period_q'):
         return '1971'
     return '1971-03-04'
